@@ -32,10 +32,7 @@ JOBS = [
          bounded='<=1 DestroyTaskArray filled to any level; unwind 17'),
     dict(id='C06.release.tasks.bounded2', harness='h_release_tasks', defines=['VF_BOUNDED_RELEASE 1', 'B_MAXARR 2'], unwind=17, timeout=3000, object_bits=9, mem_gb=40, tier='thorough',
          bounded='<=2 DestroyTaskArrays (newest filled to any level, older full); unwind 17'),
-    dict(id='C06.release.pages.bounded2', harness='h_release_pages', defines=['VF_BOUNDED_RELEASE 1', 'B_MAXARR 2'], unwind=17, timeout=3000, object_bits=9, mem_gb=40, tier='thorough',
-         bounded='as C06.release.pages.bounded with <=2 chained PageArrays'),
-    dict(id='C06.release.oversize.bounded2', harness='h_release_oversize', defines=['VF_BOUNDED_RELEASE 1', 'B_MAXARR 2'], unwind=17, timeout=3000, object_bits=9, mem_gb=40, tier='thorough',
-         bounded='as C06.release.oversize.bounded with <=2 chained OversizePageArrays'),
+    # (C06.release.pages.bounded2 / oversize.bounded2 -- two chained arrays -- ran the SAT solver out of 40 GB even when run alone: removed, see DESIGN 0.5)
     dict(id='C06.allocate8', enforce=X + 'allocate__8', replace=[X + 'do_allocate_in_new_page'], timeout=1500),
 ]
 
